@@ -13,6 +13,7 @@ CONSTANTS
   Thin = 1
   ThinRes = 0
   FullDepth = 0
+  ChainMode = FALSE
 INIT Init
 NEXT Next
 INVARIANT T0_Machine
